@@ -285,6 +285,7 @@ func init() {
 							if si == 1 {
 								ra.IA = c05XIA
 							}
+							defer scionQuiesce()
 							return client.MeasureClockOffsetSCION(ctx, log, []*client.SCIONClient{c}, la, ra, []snet.Path{paths[si]})
 						}
 					}
